@@ -175,10 +175,14 @@ structure Exc where
 def Exc.unwrap (ex : Exc) : Option GoErr :=
   if ex.val.isGoErrorInstance then ex.val.goErrValue else none
 
-/-- Exception.Error() / String() (runtime.go:383,396) call `e.val.String()` with no recover: for a thrown object
-whose string conversion throws, the Go panic leaves the `Error()` method (known finding C14
-`error-method-panics-on-unstringifiable-value`). -/
-def Exc.errorPanics (ex : Exc) : Bool := ex.val.unstringifiable
+/-- Exception.Error() / String() (runtime.go) stringify the value through `valueString()` (fix fe5ea29): the
+conversion runs under `vm.try` with a deferred recover and falls back to a description of the object, so the
+methods return for every thrown value. -/
+def Exc.errorPanics (_ex : Exc) : Bool := false
+
+/-- Before fix fe5ea29 they called `e.val.String()` unguarded: a thrown object whose string conversion throws made
+a Go panic leave `Error()`.  Kept for the regression lemma `…_prefix_witness` in Props. -/
+def Exc.errorPanicsPrefix (ex : Exc) : Bool := ex.val.unstringifiable
 
 inductive Sentinel where
   | typeE | refE | rangeE | syntaxE       -- typeError / referenceError / rangeError / syntaxError string types
